@@ -26,6 +26,7 @@ pub fn run(ctx: &mut Ctx) -> Result<(), String> {
         "C08" => pool_props::run(ctx, "C08", 480, 40_000),
         "C18" => pool_props::run(ctx, "C18", 320, 20_000),
         "C09" => c09::run(ctx),
+        "C10" => cluster_props::run_c10(ctx),
         "C11" => c11::run(ctx),
         "C12" => c12::run(ctx),
         "C13" => c13::run(ctx),
